@@ -63,6 +63,10 @@ def _fz(x):
 class Model(object):
     """Common part: the fills since the last reset and the context of the last one."""
 
+    # True for the models of elements that yield "the filled values themselves": they judge the yielded
+    # objects by identity (so they must be given the real objects, not snapshots taken at receipt)
+    by_identity = False
+
     def __init__(self):
         self.values = []
 
@@ -78,6 +82,18 @@ class Model(object):
 
     def last_context(self):
         return split_value(self.values[-1])[1] if self.values else {}
+
+    # -- as a component of a vector ---------------------------------------------------------------
+    # An accumulator used as a component yields a sequence of outputs per compute(); the scalar
+    # aggregates yield exactly one (models that can have nothing to yield say so through raises()).
+    def n_outputs(self):
+        return 1
+
+    def output_ok(self, k, got):
+        return k == 0 and self.data_ok(split_value(got)[0])
+
+    def expected_output(self, k):
+        return self.expected_data()
 
     # -- helpers for the judgement --------------------------------------------------------------
     def _one(self, outcome, problems):
@@ -185,12 +201,18 @@ class CountModel(Model):
 
 
 class MeanModel(Model):
-    """sum / count as a float; nothing filled: an error, or nothing at all with pass_on_empty."""
+    """sum / count as a float; nothing filled: an error, or nothing at all with pass_on_empty.
 
-    def __init__(self, pass_on_empty=False, exact_sum=False):
+    extras: the sum algorithm yields further values after the sum (a function of the filled data giving
+    the list of them; plain data without context).  Documented: "if the sum_seq yields several values,
+    they are all yielded, but only the first is divided by number of events" - every one of them with
+    the context of the last filled value."""
+
+    def __init__(self, pass_on_empty=False, exact_sum=False, extras=None):
         Model.__init__(self)
         self.pass_on_empty = pass_on_empty
         self.exact_sum = exact_sum
+        self.extras = extras
 
     def data_ok(self, got):
         datas = self.datas()
@@ -215,6 +237,9 @@ class MeanModel(Model):
         problems = []
         if self.n == 0:
             return self.judge_empty(outcome)
+        rest = []
+        if self.extras is not None and outcome[0] == "ok" and outcome[1]:
+            outcome, rest = ("ok", outcome[1][:1]), outcome[1][1:]
         item = self._one(outcome, problems)
         if problems:
             return problems
@@ -223,6 +248,16 @@ class MeanModel(Model):
             exact = sum(Fraction(d) for d in self.datas()) / self.n
             problems.append(("aggregate", "data", float(exact), data))
         self._context(ctx, problems)
+        if self.extras is not None:
+            want = self.extras(self.datas())
+            if len(rest) != len(want):
+                problems.append(("aggregate", "n_outputs", 1 + len(want), 1 + len(rest)))
+            else:
+                for w, item in zip(want, rest):
+                    data, ctx = split_value(item)
+                    if not (data == w):
+                        problems.append(("aggregate", "further value of the sum algorithm", w, data))
+                    self._context(ctx, problems)
         return problems
 
     def raises(self):
@@ -320,11 +355,16 @@ class VarianceModel(MeanModel):
 
 
 class VectorModel(Model):
-    """Component-wise result of the inner accumulators; context of the last filled vector."""
+    """Component-wise result of the inner accumulators; context of the last filled vector.
+
+    The k-th value yielded by compute() holds the k-th output of every component (documented: "if
+    compute for different components yield different number of results, the longest output is yielded
+    (the others are padded with None)"), and every yielded value carries the context of the last filled
+    vector."""
 
     def __init__(self, inner):
         Model.__init__(self)
-        self.inner = inner          # list of scalar models with data_ok()/expected_data()
+        self.inner = inner          # list of component models with n_outputs()/output_ok()/expected_output()
         self.inner_may_raise_empty = False
 
     def fill(self, value):
@@ -342,22 +382,27 @@ class VectorModel(Model):
             return []
         if self.n == 0 and any(isinstance(m, MeanModel) for m in self.inner):
             return self.inner[0].judge_empty(outcome)       # pass_on_empty components: nothing
-        item = self._one(outcome, problems)
-        if problems:
-            return problems
-        data, ctx = split_value(item)
-        try:
-            comps = list(data)
-        except TypeError:
-            comps = None
-        if comps is None or len(comps) != len(self.inner):
-            problems.append(("aggregate", "shape", len(self.inner), data))
-        else:
-            for i, (m, c) in enumerate(zip(self.inner, comps)):
-                c_data, c_ctx = split_value(c)
-                if not m.data_ok(c_data):
-                    problems.append(("aggregate", "component", m.expected_data(), c))
-        self._context(ctx, problems)
+        if outcome[0] != "ok":
+            return [("aggregate", "raised " + outcome[1], "values", outcome[1])]
+        counts = [m.n_outputs() for m in self.inner]
+        if len(outcome[1]) != max(counts):
+            return [("aggregate", "n_outputs", max(counts), len(outcome[1]))]
+        for k, item in enumerate(outcome[1]):
+            data, ctx = split_value(item)
+            try:
+                comps = list(data)
+            except TypeError:
+                comps = None
+            if comps is None or len(comps) != len(self.inner):
+                problems.append(("aggregate", "shape", len(self.inner), data))
+            else:
+                for m, cnt, c in zip(self.inner, counts, comps):
+                    if k >= cnt:
+                        if c is not None:
+                            problems.append(("aggregate", "component (padding)", None, c))
+                    elif not m.output_ok(k, c):
+                        problems.append(("aggregate", "component", m.expected_output(k), c))
+            self._context(ctx, problems)
         return problems
 
     def abstract(self):
@@ -405,9 +450,24 @@ class ZipModel(Model):
 class StoreModel(Model):
     """The filled values themselves (the same objects, in fill order), as one list or one by one."""
 
+    by_identity = True
+
     def __init__(self, as_group=True):
         Model.__init__(self)
         self.as_group = as_group
+
+    # as a component of a vector it is filled with plain components: judged by ==
+    def n_outputs(self):
+        return 1 if self.as_group else self.n
+
+    def expected_output(self, k):
+        return list(self.values) if self.as_group else self.values[k]
+
+    def output_ok(self, k, got):
+        try:
+            return k < self.n_outputs() and bool(got == self.expected_output(k))
+        except Exception:  # noqa: a comparison that fails is no equality
+            return False
 
     def judge(self, outcome, objs):
         problems = []
@@ -436,6 +496,8 @@ class GroupModel(Model):
     """The filled values themselves, partitioned by the grouping key: every value in exactly one
     group, two values in one group iff their keys are equal.  Order of groups (and inside a group)
     is not part of the statement and is not judged here (the twin comparison sees it)."""
+
+    by_identity = True
 
     def __init__(self, key):
         Model.__init__(self)
